@@ -191,3 +191,19 @@ Theorem C09_backup_preserves_what_a_file_replaces : forall d, d <> DAbsent ->
   dest_outcome SFile d OBackup = CreatedBackedUp \/ dest_outcome SFile d OBackup = Refused.
 Proof. exact backup_preserves_what_a_file_replaces. Qed.
 Print Assumptions C09_backup_preserves_what_a_file_replaces.
+
+(* ---- what happens to a destination AFTER its backup was made: the arms of both worker loops that run (and clean up after) a
+   copy, and the finalisation run by the drop of the handle — pinned as validated: nothing there removes or renames an entry ---- *)
+From XcpPins Require Import Pin_parfile_copy_worker Pin_parblock_dispatch_worker Pin_operations_drop Pin_operations_finalise_copy.
+Theorem C09_src_pin_parfile_copy_worker : pin_unchanged name_parfile_copy_worker.
+Proof. exact pin_parfile_copy_worker. Qed.
+Theorem C09_src_pin_parblock_dispatch_worker : pin_unchanged name_parblock_dispatch_worker.
+Proof. exact pin_parblock_dispatch_worker. Qed.
+Theorem C09_src_pin_operations_drop : pin_unchanged name_operations_drop.
+Proof. exact pin_operations_drop. Qed.
+Theorem C09_src_pin_operations_finalise_copy : pin_unchanged name_operations_finalise_copy.
+Proof. exact pin_operations_finalise_copy. Qed.
+Print Assumptions C09_src_pin_parfile_copy_worker.
+Print Assumptions C09_src_pin_parblock_dispatch_worker.
+Print Assumptions C09_src_pin_operations_drop.
+Print Assumptions C09_src_pin_operations_finalise_copy.
